@@ -23,6 +23,8 @@ enum Pair {
   RouterDealer,
   PubSub,
   DealerDealer,
+  /// ROUTER -> ROUTER: no delimiter is added or removed on either side, every payload frame is payload
+  RouterRouter,
 }
 
 #[derive(Clone, Copy, Debug, PartialEq, Eq)]
@@ -125,6 +127,7 @@ fn run_shape(sh: &Shape) -> world::WorldResult<ShapeOut> {
       Pair::RouterDealer => (SocketType::Router, SocketType::Dealer),
       Pair::PubSub => (SocketType::Pub, SocketType::Sub),
       Pair::DealerDealer => (SocketType::Dealer, SocketType::Dealer),
+      Pair::RouterRouter => (SocketType::Router, SocketType::Router),
     };
     let a = stack::mk(&ctx, ta, &[(o::SNDTIMEO, 500), (o::LINGER, 0), (o::SNDHWM, 1000)]).await;
     let b = stack::mk(&ctx, tb, &[(o::RCVTIMEO, 100), (o::LINGER, 0), (o::RCVHWM, 1000)]).await;
@@ -136,6 +139,12 @@ fn run_shape(sh: &Shape) -> world::WorldResult<ShapeOut> {
     }
     if sh.pair == Pair::PubSub {
       b.set_option(o::SUBSCRIBE, &b""[..]).await.unwrap();
+    }
+    if sh.pair == Pair::RouterRouter {
+      a.set_option(o::ROUTER_MANDATORY, 1i32).await.unwrap();
+      a.set_option(o::ROUTING_ID, &b"tx"[..]).await.unwrap();
+      b.set_option(o::ROUTING_ID, &b"rx"[..]).await.unwrap();
+      prefix = Some(b"rx".to_vec());
     }
     match sh.tr {
       Tr::Zmtp => {
@@ -177,7 +186,7 @@ fn judge_shape(sh: &Shape, out: &ShapeOut) -> Vec<(String, String, String)> {
   let class = format!("{:?}:{:?}:{}frames{}", sh.pair, sh.tr, sh.frames.len(), if sh.preset_more { "" } else { ":more-not-preset" });
   let (mut msgs, dangling) = split_messages(&out.flat);
   // strip the routing envelope the ROUTER adds
-  if sh.pair == Pair::DealerRouter {
+  if sh.pair == Pair::DealerRouter || sh.pair == Pair::RouterRouter {
     for m in msgs.iter_mut() {
       if !m.is_empty() {
         m.remove(0);
@@ -214,7 +223,7 @@ fn judge_shape(sh: &Shape, out: &ShapeOut) -> Vec<(String, String, String)> {
     }
     Err(e) => {
       // refused at the sender: nothing of it may arrive, later traffic must be unaffected
-      if sh.frames.len() + (sh.pair == Pair::RouterDealer) as usize <= 253 {
+      if sh.frames.len() + (sh.pair == Pair::RouterDealer || sh.pair == Pair::RouterRouter) as usize <= 253 {
         v.push(("supported-shape-refused".into(), class.clone(), format!("send_multipart of {} frames failed: {}", sh.frames.len(), e)));
       }
       if !msgs.is_empty() && msgs[0] != sentinel {
@@ -264,14 +273,14 @@ fn shapes(tier: Tier) -> Vec<Shape> {
     v
   };
   let mut out = vec![];
-  for pair in [Pair::PushPull, Pair::DealerRouter, Pair::RouterDealer, Pair::PubSub, Pair::DealerDealer] {
+  for pair in [Pair::PushPull, Pair::DealerRouter, Pair::RouterDealer, Pair::PubSub, Pair::DealerDealer, Pair::RouterRouter] {
     for tr in [Tr::Zmtp, Tr::Inproc] {
-      if pair == Pair::DealerDealer && tr == Tr::Inproc {
+      if (pair == Pair::DealerDealer || pair == Pair::RouterRouter) && tr == Tr::Inproc {
         continue; // inproc refuses DEALER-DEALER (C05 known finding)
       }
       for f in &frames_list {
         for preset_more in [true, false] {
-          if !preset_more && pair == Pair::RouterDealer {
+          if !preset_more && (pair == Pair::RouterDealer || pair == Pair::RouterRouter) {
             continue; // the ROUTER API requires the caller to flag MORE itself (documented contract)
           }
           let big = f.len() > 3;
